@@ -120,6 +120,13 @@ def obs_class(o):
         return 'format:malformed:' + ('relative' if o.get('relative') else 'absolute')
     if f == 'denote':
         return 'denote:' + ('rejected-by-tool' if o['restored'] == [-1] else 'accepted-by-tool')
+    if f == 'restored':
+        try:
+            pp, _ = world.parse_info(bytes(o['content']))
+        except (ValueError, TypeError):
+            pp = None
+        return 'restored:%s:%s%s' % (o.get('kind', '-'), 'none' if pp is None else 'trailing-slash' if pp.endswith(b'/') else 'plain',
+                                     ':occupied-by-' + o.get('occupant', '?') if o.get('occupied') else '')
     if f == 'expired':
         return 'expired:' + ('purged' if o['purged'] else 'kept')
     if f == 'match':
@@ -129,7 +136,7 @@ def obs_class(o):
 
 def show_obs(o):
     d = dict(o)
-    for k in ('content', 'loc', 'path', 'pat', 'reply', 'base', 'dir'):
+    for k in ('content', 'loc', 'path', 'pat', 'reply', 'base', 'dir', 'landed'):
         if k in d and isinstance(d[k], list) and d[k] != [-1]:
             try:
                 d[k] = bytes(d[k]).decode('utf-8', 'backslashreplace')
